@@ -257,7 +257,12 @@ class ArrayUnionMatcher(CombinationMatcher):
         return self._docnum < self._doccount
 
     def max_quality(self):
-        return max(m.max_quality() for m in self._submatchers)
+        # A document's score is the sum of the scores of the sub-matchers that
+        # match it. Postings already read into the buffer are bounded by the
+        # buffer's maximum, later ones by the sum of the sub-matchers' bounds.
+        q = sum(m.max_quality() for m in self._submatchers
+                if m.is_active()) * self._boost
+        return max(q, self.block_quality())
 
     def block_quality(self):
         return max(self._a)
